@@ -1,0 +1,36 @@
+//go:build verif
+
+package gabi
+
+import (
+	"github.com/privacybydesign/gabi/big"
+	"github.com/privacybydesign/gabi/internal/common"
+	"github.com/privacybydesign/gabi/internal/simhook"
+)
+
+// VerifHooks is the set of callbacks the simulation harness installs.
+type VerifHooks struct {
+	Yield   func(site string)
+	Spawned func(name string)
+	Exited  func(name string)
+	Buggify func(site string) bool
+	Knob    func(site string, def int) int
+}
+
+// VerifInstallHooks installs (or, with a zero value, removes) the harness callbacks.
+func VerifInstallHooks(h VerifHooks) {
+	simhook.YieldFn = h.Yield
+	simhook.SpawnedFn = h.Spawned
+	simhook.ExitedFn = h.Exited
+	simhook.BuggifyFn = h.Buggify
+	simhook.KnobFn = h.Knob
+}
+
+// VerifReseedFastRandom re-keys the process-wide fast random generator.
+func VerifReseedFastRandom(seed [32]byte) { common.VerifReseedCPRNG(&seed) }
+
+// VerifFastRandomRead reads from the process-wide fast random generator.
+func VerifFastRandomRead(buf []byte) (int, error) { return common.VerifCPRNGRead(buf) }
+
+// VerifRandomQR exposes common.RandomQR (a user of the shared generator).
+func VerifRandomQR(n *big.Int) *big.Int { return common.RandomQR(n) }
